@@ -202,14 +202,24 @@ def fast_csv_reader(source: Union[str, StringIO],
     cur_cell_char_count = np.int64(0)
     cur_cell_start = column_inds[col_index, row_index] if row_index >= 0 else np.int64(0)
     
+    # a call starts right after a line break (or at the start of the file): skip the blanks that follow it,
+    # exactly as the loop below does for a line break inside the window, so that the result does not depend
+    # on where the windows happen to start
+    while index < len(source) and source[index] == whitespace_value:
+        index += 1
+
     # the first cell of this call starts where the call starts (a quoted first cell is legal there)
-    index_for_cur_cell_start = np.int64(start_index)
+    index_for_cur_cell_start = index
 
     is_column_inds_full = False
     is_column_vals_full = False
 
     col_offset = np.int64(0)
     col_val_count = column_offsets[1]
+
+    if index == len(source):
+        # nothing but blanks left in the window: no record starts here
+        return np.int64(start_index), row_index, is_column_inds_full, is_column_vals_full, val_full_col_idx
 
     while True:
         write_char = False
